@@ -54,20 +54,22 @@ def run(tier, seed):
     with open(first) as f, open(st, "w") as g:
         for line in f:
             e = json.loads(line)
-            if e["ev"] == "fileload" and e["outcome"] == "ok" and e["m_file"] == e["m_emu"] and n < 3:
+            if e["ev"] == "fileload" and e["outcome"] == "ok" and e["m_file"] == e["m_emu"] and n < 4:
                 if n == 0:
                     e["state"]["de_"] ^= 0x100
                 elif n == 1:
                     e["ram_diff"] = [[5, 1, 2, 3]]
+                elif n == 2:
+                    e["pix"][7][2] ^= 0x10          # a colour value no decode produces
                 else:
                     e["state"]["border"] = (e["state"]["border"] + 1) % 8
                 n += 1
                 g.write(json.dumps(e) + "\n")
-            elif e["ev"] == "fileload" and e["m_file"] != e["m_emu"] and n == 3:
+            elif e["ev"] == "fileload" and e["m_file"] != e["m_emu"] and n == 4:
                 e["outcome"] = "ok"; n += 1
                 g.write(json.dumps(e) + "\n")
     _, _, mm2 = validate(PID, st, "selftest")
-    chk.cov["selftest"] = {"corrupted_events": n, "rejected": len(mm2), "ok": len(mm2) == n and n == 4}
+    chk.cov["selftest"] = {"corrupted_events": n, "rejected": len(mm2), "ok": len(mm2) == n and n == 5}
     if not chk.cov["selftest"]["ok"]:
         chk.selftest_failed("corrupted loads were not all rejected")
     e = json.loads(open(first).readline())
@@ -75,7 +77,7 @@ def run(tier, seed):
     chk.cov["traces_validated_against_impl"] = chk.cov["events_validated"]
     chk.cov["rule"] = (f"{shards} shards x {40 if quick else 500} descriptions x 3 encodings (SNA, SZX stored, SZX zlib + shuffled + unknown chunks) x 6 receiving "
                        "emulators (fresh, halted, mid-prefix, paging-locked, EI-shadow, other model); judged: every register, IFF1/2, IM, halted, EI-pending, "
-                       "latch + lock, border, all RAM, AY read-back through the ports, audible AY state (sample energy over 3 frames), mouse presence, a "
+                       "latch + lock, border, all RAM, 32 sampled pixels of a later frame against the standard decode of the file's bank 5 / 7 (CPU parked), AY read-back through the ports, audible AY state (sample energy over 3 frames), mouse presence, a "
                        f"halted machine staying halted; plus {40 if quick else 400} SCR loads (right and wrong sizes)")
     chk.assumptions += ["PC of a halted CPU is judged by behaviour (HALT at PC-1 and PC, INC A behind them must not execute), not by its value",
                         "receiving emulators have AY emulation enabled; interrupts go to the ROM's IM 1 handler during the 3 behaviour frames"]
